@@ -189,6 +189,9 @@ class Ctx(object):
             if line.startswith("Error:") or "Exception" in line:
                 self._classify(res, line)
             if coverage:
+                if line.startswith("The coverage statistics at"):
+                    # TLC prints interim reports while it runs; only the last (final) report counts
+                    res.coverage_zero = []
                 m = re.match(r"^<(\w+) line .*>: (\d+):(\d+)$", line)
                 if m and m.group(3) == "0" and m.group(2) == "0":
                     res.coverage_zero.append(m.group(1))
